@@ -290,6 +290,14 @@ def shards(tier, seed):
         for cost, msl, scale in (("L2", 1, 1.0), ("L2", 4, 0.5), ("L2", 5, 0.05), ("GaussianVar", 4, 0.5), ("GaussianVar", 6, 0.2)):
             if n >= 2 * msl:
                 sh.append(("long", (n, cost, msl, scale), 0, 10 ** 9))
+    # realistic lengths: ALL placements of <= 2 changes in series of length 72 (thorough: also 100, 136) -- beyond any
+    # fixed-size buffer, block or batch of 64 (or 128) candidate starts; a low penalty makes the texture itself
+    # segment-worthy, so the optimal last changepoint differs from prefix to prefix and a wrongly dropped start shows
+    for n in (72,) if tier == "quick" else (72, 100, 136):
+        tot = 2 * (1 + (n - 1) + (n - 1) * (n - 2) // 2)
+        for cost, msl, scale in (("L2", 2, 0.05), ("L2", 2, 1.0), ("L2", 7, 0.3), ("GaussianVar", 3, 0.2)):
+            for lo in range(0, tot, 400):
+                sh.append(("long72", (n, cost, msl, scale, tier == "quick"), lo, min(tot, lo + 400)))
     # fitted on a shorter prefix, predicting the full series (penalty read back from the fitted detector)
     for n in (6, 7) if tier == "quick" else (6, 7, 8):
         for cost, msl, k in (("L2", 1, 2), ("L2", 2, 4), ("GaussianVar", 2, n - 1)):
@@ -305,6 +313,7 @@ def bounds(tier, seed):
         "data_configs": sorted({str((c[0], c[1], c[2], c[3])) for c in data_configs(tier, seed)})[:60],
         "penalty_scales_data": [0.0, 0.05, 1.0],
         "medium_length": "piecewise-constant series with a deterministic texture, n in (12,16,20) quick / up to 32: all placements of <= 2 changes (and a third of the admissible 3-change placements for msl >= 4); msl in (1,4,5,6)",
+        "realistic_length": "n = 72 (quick: all 0- and 1-change placements and a fixed quarter of the 2-change placements; thorough: all, also n = 100, 136), L2 msl 2 / 7 and GaussianVar msl 3, penalty scales 0.05 / 1.0 / 0.3 / 0.2",
         "multivariate_cost_data": "GaussianCovCost, msl 3, on two generic columns built from every (0,3) series n in (6,7,8) quick / (6..11), scales 0.05 and 0.5",
         "two_column_data": "all 2-column matrices over (0,3), n<=5 (quick)/6, L2 (msl 1,2) and GaussianVar (msl 2), scale 0.05",
     }
@@ -339,6 +348,12 @@ def run_shard(shard):
         for cps, xs in util.structured_series(n, 3, (0.0, 3.0, -2.0)) if msl >= 4 else ():
             if len(cps) == 3 and all(b - a >= msl for a, b in zip((0,) + cps, cps + (n,))) and (cps[0] + cps[2]) % 3 == 0:
                 check_case(acc, {"mode": "data", "x": list(xs), "cost": cost, "msl": msl, "scale": scale})
+    elif kind == "long72":
+        n, cost, msl, scale, quarter = cfg
+        for cps, xs in itertools.islice(util.structured_series(n, 2, (0.0, 3.0)), lo, hi):
+            if quarter and len(cps) == 2 and (cps[0] + cps[1]) % 4:
+                continue  # quick: a fixed quarter of the two-change placements
+            check_case(acc, {"mode": "data", "x": list(xs), "cost": cost, "msl": msl, "scale": scale})
     elif kind == "data3":
         n, cost, msl, scale = cfg
         for xs in itertools.islice(itertools.product((0, 3), repeat=n), lo, hi):
